@@ -6,6 +6,7 @@ import (
 	"go/constant"
 	"go/token"
 	"sort"
+	"strings"
 
 	"golang.org/x/tools/go/ssa"
 )
@@ -50,6 +51,23 @@ func linProductPlus(fa *FA, L Lin, x, y Lin) (Lin, bool) {
 			}
 		}
 		return "", false
+	}
+	_, sx := single(x)
+	_, sy := single(y)
+	if !(sx && sy) {
+		// one factor is itself a sum (the counter of a range loop is phi+1): subtract the distributed product
+		if prod, ok := linMul(x, y); ok {
+			rest := L.Sub(prod)
+			okAll := true
+			for atom := range prod.T {
+				if strings.HasPrefix(atom, "(* ") && rest.T[atom] != 0 {
+					okAll = false
+				}
+			}
+			if okAll {
+				return rest, true
+			}
+		}
 	}
 	if ax, ok := single(x); ok {
 		if ay, ok := single(y); ok {
